@@ -21,7 +21,7 @@
 From Coq Require Import List Arith NArith Bool Permutation.
 Import ListNotations.
 Require Import Celma.Common.Res Celma.Text.TextBlockModel Celma.Text.TextBlockProofs.
-Require Import Celma.Text.Usage Celma.Text.UsageProofs.
+Require Import Celma.Text.Usage Celma.Text.UsageProofs Celma.Text.UsageDigest.
 Require Celma.ArgH.Key Celma.ArgH.Table.
 
 (** usage_section: the usage is the mandatory section followed by the optional
@@ -182,6 +182,61 @@ Theorem C18_usage_never_throws :
 Proof. split; [exact print_never_fails|exact kind_defaults]. Qed.
 Print Assumptions C18_usage_never_throws.
 
+(** usage_digest: the layout-insensitive reading of the usage text that harness
+    and driver print as property observable ([digest]: a line in column 0 is a
+    caption, a line indented by exactly three blanks starts an entry whose first
+    word is the key text, deeper lines continue the entry), applied to the
+    characters the model writes, is the digest computed directly from the list
+    of visible arguments: "Usage:", then per non-empty class its caption and, in
+    definition order, one entry (key text, words of description and extras
+    without "nn") per visible argument.  [key_good]: the key text is not empty
+    and holds neither blank nor newline - true for every key whose characters
+    are neither (second statement). *)
+Theorem C18_usage_digest :
+  forall p width args,
+    (forall a, In a args -> visible p a = true -> key_good (key_text (cont p) a)) ->
+    digest (unlines (usage_lines p width args)) =
+    DCap S_USAGE
+      :: spec_section p true (listed p true args) ++ spec_section p false (listed p false args).
+Proof. exact usage_digest. Qed.
+Print Assumptions C18_usage_digest.
+
+Theorem C18_usage_digest_key_good :
+  forall c a,
+    char_good (Key.kc (akey a)) -> Forall char_good (Key.kw (akey a)) -> key_good (key_text c a).
+Proof. exact key_text_good. Qed.
+Print Assumptions C18_usage_digest_key_good.
+
+(** usage texts (IUsageText): the constructor accepts one text, or two with
+    different positions that are not (after, before); an accepted "before" text
+    is written verbatim (plus two line ends) in front of the usage, an "after"
+    text behind it; the usage between them still reads as the digest of the
+    visible arguments, whatever the texts contain. *)
+Theorem C18_usage_texts :
+  (forall t1 t2,
+      check_texts t1 t2 = Ok tt <->
+      match t1, t2 with
+      | None, None => True
+      | Some _, None => True
+      | None, Some _ => False
+      | Some (p1, _), Some (p2, _) => p1 <> p2 /\ ~ (p1 = UAfter /\ p2 = UBefore)
+      end) /\
+  (forall t1 t2 f width args s s',
+      eval_cmd_txt t1 t2 f width args s CmdHelp = Ok s' ->
+      hout s' = hout s ++ text_before t1 ++ usage_lines (hp s) width args ++ text_after t1 t2 /\
+      herr s' = herr s /\ hp s' = hp s /\ hprinted s' = true) /\
+  (forall s, unlines (text_lines s) = s ++ [NL; NL]) /\
+  (forall t1 t2 p width args,
+      (forall a, In a args -> visible p a = true -> key_good (key_text (cont p) a)) ->
+      digest (unlines (usage_lines_txt t1 t2 p width args)) =
+      rev (fold_left add_line (text_after t1 t2)
+             (rev (spec_digest p args) ++ fold_left add_line (text_before t1) []))).
+Proof.
+  split; [exact check_texts_spec|]. split; [exact eval_help_txt|].
+  split; [exact text_lines_verbatim|exact usage_txt_digest].
+Qed.
+Print Assumptions C18_usage_texts.
+
 (* ------------------------------------------------------------------ *)
 (** Non-vacuity and the witnesses against the pinned code. *)
 Definition s_ (l : list nat) : list N := map N.of_nat l.
@@ -215,6 +270,19 @@ Example C18_nonvacuous_usage :
       32;32;32;45;105;44;45;45;105;110;112;117;116;32;32;32;116;104;101;32;105;110;112;117;116;10;
       10].
 Proof. vm_compute. reflexivity. Qed.
+
+Example C18_nonvacuous_digest :
+  (forall a, In a [a_input; a_secret] -> visible (mkparams true false CAll) a = true ->
+             key_good (key_text CAll a)) /\
+  digest (unlines (usage_lines (mkparams true false CAll) 80 [a_input; a_secret])) =
+  [DCap S_USAGE; DCap CAP_MAND;
+   DEnt (s_ [45;105;44;45;45;105;110;112;117;116]) [s_ [116;104;101]; s_ [105;110;112;117;116]];
+   DCap CAP_OPT;
+   DEnt (s_ [45;45;115;101;99;114;101;116]) [s_ [97]; s_ [115;101;99;114;101;116]; S_HIDDEN]].
+Proof.
+  split; [|vm_compute; reflexivity].
+  intros a [<-|[<-|[]]] _; apply key_text_good; vm_compute; repeat constructor; discriminate.
+Qed.
 
 (** pinned code, defect 1: --help-arg=inp finds --input but prints no description *)
 Example C18_help_arg_abbreviation_pinned_refuted :
